@@ -65,7 +65,12 @@ Counted::Counted( const filename::Definition& fname_def, size_t max_entries,
 /// @since  1.11.0, 05.09.2018
 bool Counted::openCheck()
 {
-   return fileSize() == 0;
+   if (fileSize() != 0)
+      return false;
+
+   // a new, empty file: start counting again
+   mNumberOfEntries = 0;
+   return true;
 } // Counted::openCheck
 
 
